@@ -1,0 +1,35 @@
+//go:build verif
+
+// Contracts for the verification machinery in /verif (comment-only; compiled only with -tags verif).
+package intervalst
+
+// ---- C51 (interval predicates): positions are totally ordered; mval(p) is a position's rank (a ghost integer; for
+// a concrete position type it is defined by a `typeint` clause next to the type), MinPosition ranks below every
+// other position. The interface contract is instantiated on, and proved for, every implementor in the loaded
+// program (MinPosition here, sema.Position in package sema).
+//@ typeint MinPosition: -pow2(200)
+//@ spec posok(p) = p != nil && (kind(p) != intervalst.MinPosition ==> mval(p) > -pow2(200))
+//@ spec kcompat(a, b) = kind(a) == intervalst.MinPosition || kind(b) == intervalst.MinPosition || kind(a) == kind(b)
+//@ iface Position.Compare
+//@   option expand=true
+//@   requires other != nil && (kind(other) != intervalst.MinPosition ==> mval(other) > -pow2(200)) && (kind(self) != intervalst.MinPosition ==> mval(self) > -pow2(200))
+//@   fails kind(self) != intervalst.MinPosition && kind(other) != intervalst.MinPosition && kind(other) != kind(self) => string
+//@   ensures[C51] result == ite(mval(self) < mval(other), -1, ite(mval(self) > mval(other), 1, 0))
+
+// closed intervals [Min, Max]: overlap, membership and the lexicographic order on (Min, Max)
+//@ func NewInterval
+//@   requires posok(min) && posok(max) && kcompat(min, max)
+//@   fails[C51] mval(min) > mval(max) => string
+//@   ensures[C51] mval(result.Min) == mval(min) && mval(result.Max) == mval(max)
+//@ func (Interval).Intersects
+//@   requires posok(i.Min) && posok(i.Max) && posok(other.Min) && posok(other.Max) && kcompat(other.Max, i.Min) && kcompat(i.Max, other.Min)
+//@   nofail
+//@   ensures[C51] iff(result, !(mval(other.Max) < mval(i.Min) || mval(i.Max) < mval(other.Min)))
+//@ func (Interval).Contains
+//@   requires posok(i.Min) && posok(i.Max) && posok(x) && kcompat(i.Min, x) && kcompat(x, i.Max)
+//@   nofail
+//@   ensures[C51] iff(result, mval(i.Min) <= mval(x) && mval(x) <= mval(i.Max))
+//@ func (Interval).Compare
+//@   requires posok(i.Min) && posok(i.Max) && posok(other.Min) && posok(other.Max) && kcompat(i.Min, other.Min) && kcompat(i.Max, other.Max)
+//@   nofail
+//@   ensures[C51] result == ite(mval(i.Min) < mval(other.Min), -1, ite(mval(i.Min) > mval(other.Min), 1, ite(mval(i.Max) < mval(other.Max), -1, ite(mval(i.Max) > mval(other.Max), 1, 0))))
